@@ -271,7 +271,9 @@ func c03Explore(r *vt.Run, base c03Case, visited map[string]bool, prefix []int) 
 func checkC03(r *vt.Run) {
 	var rc c03Case
 	if r.ReplayInto(&rc) {
-		c03Run(r, rc, true)
+		if len(rc.Scripts) > 0 { // otherwise the case belongs to part B (package app)
+			c03Run(r, rc, true)
+		}
 		return
 	}
 	scripts := [][]string{{"acq"}, {"acq", "acq"}, {"acq", "rel"}, {"acq", "rel", "acq"}}
